@@ -10,7 +10,7 @@ COMMON = ("Trusted base: Lean 4.33 kernel (axioms audited per theorem: subset of
 P = {
  "C01": ("fully proved under Ciphers.Lawful; model reproduces wrap byte for byte from recorded entropy", "Lean 4 theorem wrap_unwrap (induction over block lists, CBC inverse) + correspondence"),
  "C02": ("partial: every accepted string is a genuine block up to hex case or exhibits a MAC forgery on the authenticated (header, key data, MAC) triple - proved; EUF-CMA of the three MACs assumed; exact verdict oracle = model with reference ciphers", "Lean 4 reduction theorems + differential tamper testing against the model"),
- "C03": ("proved in both directions against the independent Lean specification Spec/TR31.lean + Spec/CMAC.lean: wrap_is_spec_valid (every block wrap emits is opened by the specification to the same key and header) and spec_valid_unwraps (every block the specification can build, with every encoding freedom, is opened by psec); partial only in that the specification's fidelity to the printed TR-31:2018 / SP 800-38B is validated (third-party vectors, OpenSSL CMAC), not proved", "Lean 4 theorems against an independent specification (parser, verifier, builder) + two-way interop correspondence"),
+ "C03": ("proved in both directions against the independent Lean specification Spec/TR31.lean + Spec/CMAC.lean: wrap_is_spec_valid (every block wrap emits is opened by the specification to the same key and header) and spec_valid_unwraps (every block the specification can build, with every encoding freedom, is opened by psec), and the refinement unwrap_eq_spec (on every canonical string psec's unwrap returns exactly what the specification's grammar-based verifier returns); partial only in that the specification's fidelity to the printed TR-31:2018 / SP 800-38B is validated (third-party vectors, OpenSSL CMAC), not proved", "Lean 4 theorems against an independent specification (parser, verifier, builder) + two-way interop correspondence"),
  "C04": ("fully proved for every PIN, PAN and every value of the random fill (format 4 enciphered under Ciphers.Lawful)", "Lean 4 round-trip theorems + correspondence with recorded entropy"),
  "C05": ("fully proved: encoders equal the nibble-level ISO 9564-1 specification", "Lean 4 equality with a from-the-standard specification + correspondence"),
  "C06": ("acceptance iff well-formedness fully proved for every block; format-4 PAN binding partial (needs AES pseudo-randomness)", "Lean 4 iff theorems over all 64/128-bit blocks + correspondence against Spec.specDecode"),
